@@ -41,7 +41,8 @@ MANIFEST = dict(
          "its prefix then one clean chain: connected and block = the spa's bytes). Tie: translator facts + differential correspondence of the model driver "
          "with the real engine stepped through its own `_thread_func` on boundary-aimed scripts, and of the handshake model with a real GeckoSpa against the "
          "real GeckoSimulator (both engines stepped, shipped snapshot) under seeded loss. Search: monitors on the stepped real engine (send order, gaps, "
-         "dispatch target, handler list, retransmission counts, engine liveness, handshake outcome).",
+         "dispatch target, handler list, retransmission counts, engine liveness, handshake outcome)."
+         ' Since session 3: per-attempt-timeout monitor (consecutive retransmissions of one request at least T apart) and a backlog corpus script; the simulator is built by its real constructor.',
     note="PARTIAL: real threads are outside the step model - client threads calling queue_send/add_receive_handler are serialised between iterations (the code "
          "uses self._lock for the lists; the new last_destination assignment in queue_send is outside the lock), and `_thread_func` iterates "
          "self._receive_handlers WITHOUT the lock while client threads may append (a data race the step model cannot exhibit; named, not claimed). "
